@@ -510,6 +510,9 @@ def t_get_next_batch(E):
                 if name == 'get_nowait':
                     return VStub('Queue.get_nowait', lambda E_, a, k: _unsupp('direct get_nowait() call'),
                                  attrs={'q': obj})
+            if isinstance(obj, Obj) and obj.cls == 'ASemaphore' and name == 'locked':
+                # whether a concurrency slot is free right now: decided by the batches in progress, unknown here
+                return VStub('Semaphore.locked', lambda E_, a, k: VBool(E.fresh('all_slots_busy', z3.BoolSort())))
             if isinstance(obj, Obj) and obj.cls == 'AbsList':
                 if name == 'extend':
                     return VStub('list.extend', lambda E_, a, k: extend(obj, a[0], node))
@@ -635,6 +638,9 @@ def t_get_next_batch(E):
             return r
 
         def step():
+            E.oblige(Qn + '/timeout.a_batch_timeout_of_silence_closes_the_batch', z3.BoolVal(not st.get('timed_out')),
+                     detail='a queued call is handed over no later than batch_timeout after the last arrival that '
+                            'joined its batch: assembling never goes on after the timed wait has expired')
             # no spinning: an iteration that comes back to the loop head took an item or waited
             E.oblige(Qn + '/progress.each_iteration_dequeues_or_waits',
                      z3.Or(E.w['deq'] > st['deq_at_iteration_start'],
@@ -649,7 +655,8 @@ def t_get_next_batch(E):
         st['o'] = o
         q = Obj('AQueue', dict(maxsize=VInt(0)))
         st['q'] = q
-        o.fields.update(_queue=q, max_batch_size=E.fresh_int('max_batch_size'), batch_timeout=E.fresh_real('batch_timeout'))
+        o.fields.update(_queue=q, max_batch_size=E.fresh_int('max_batch_size'), batch_timeout=E.fresh_real('batch_timeout'),
+                        _semaphore=Obj('ASemaphore', dict(value=E.fresh_int('permits'))))
         E.assume(o.fields['max_batch_size'].t >= 1)
         E.assume(o.fields['batch_timeout'].t >= 0)
         arrivals = E.fresh('arrivals', VS)
